@@ -20,14 +20,14 @@ def prop(pid, level="model_checking"):
     return deco
 
 
-SEQ_BASE = dict(AeadC="1", Starts='"boundary"', Menu='"none"', BnKind='"leaf"', Emit="FALSE", LenVar="0",
+SEQ_BASE = dict(AeadC="1", KdfC="1", ExpMenu='"few"', SweepFrom="0", SweepTo="0", Starts='"boundary"', Menu='"none"', BnKind='"leaf"', Emit="FALSE", LenVar="0",
                 MaxSeals="3", MaxOpens="0", MaxExports="0", RecordHist="FALSE", OvfFirstInOpen="TRUE", HistLen="0",
                 FormMenu='{"alloc", "detached"}')
 
 
 SETUP_BASE = dict(KemSet="{32}", KdfSet="{1}", AeadSet="{1, 65535}", ModeSet="{0, 1, 2, 3}", Vals='"small"',
                   Perturb='{"none", "info", "psk", "pskid", "mode", "kdf", "aead", "skr", "enc", "pks", "shift"}',
-                  Impost="FALSE", Twin="FALSE", BadPkR="FALSE", Shape='"all"', Emit="FALSE", Ordered="TRUE", MaxSeals="0", MaxOpens="0", MaxExports="0", MaxShots="0",
+                  Impost="FALSE", ShotsOnly="FALSE", ShotDl='"tamper"', Twin="FALSE", BadPkR='"none"', Shape='"all"', Emit="FALSE", Ordered="TRUE", MaxSeals="0", MaxOpens="0", MaxExports="0", MaxShots="0",
                   RecordHist="FALSE", HistLen="0", FormMenu='{"alloc"}', OvfFirstInOpen="TRUE")
 
 
@@ -314,8 +314,13 @@ def tr_key(tag):
     def key(last, tr):
         su, mo = suite_of(tr)
         return (tag, su, mo, last["op"], last.get("form"), last.get("c"), last["kind"], last.get("err"),
-                json.dumps(last.get("plain"), sort_keys=True), json.dumps(_origin_sig(tr), sort_keys=True))
+                json.dumps(last.get("plain"), sort_keys=True), _digest(last.get("bytes")), _digest(_origin_sig(tr)))
     return key
+
+
+def _digest(x):
+    import hashlib
+    return hashlib.sha256(json.dumps(x, sort_keys=True).encode()).hexdigest()[:12]
 
 
 def _origin_sig(tr):
@@ -394,7 +399,7 @@ def c07(chk, tier):
     ses = Session(chk)
     try:
         want = lambda last, tr: last["op"] in ("setup_r", "open", "export")
-        for i, kem in enumerate(KEMS if thorough else (32, rot([16, 17, 18], 0))):
+        for i, kem in enumerate(KEMS if thorough else (rot([32, 16], 0), rot([17, 18, 32, 16], 0))):
             setup_transitions(chk, ses, "gen_bind_%d" % kem,
                               setup_over(KemSet="{%d}" % kem, KdfSet=kset([rot([1, 2, 3], i)]), AeadSet="{1, 3}",
                                          Vals='"small"', Shape='"all"' if thorough else '"one"', Perturb=qset(C07_KINDS),
@@ -402,6 +407,8 @@ def c07(chk, tier):
                                          MaxExports=2 if thorough else 1),
                               want=want, casekey=tr_key("c07"))
             # byte level: every bit of 32/65-byte info / psk / psk_id, appended and prepended zero bytes
+            if not thorough and i != 0:
+                continue
             setup_transitions(chk, ses, "gen_bits_%d" % kem,
                               setup_over(KemSet="{%d}" % kem, KdfSet=kset([rot([1, 2, 3], i + 1)]), AeadSet="{2}",
                                          ModeSet="{0, 3}" if not thorough else "{0, 1, 2, 3}",
@@ -454,3 +461,142 @@ def c08(chk, tier):
     chk.cov["rule"] = ("4 KEMs x {Psk, Auth, AuthPsk}: honest sender, impostors (foreign key pair, public half only, "
                        "non-authenticated mode, wrong PSK incl. every single PSK bit) against a receiver expecting pkS / the "
                        "PSK; distinct = distinct (suite, mode, impostor and receiver arguments, call, outcome)")
+
+
+# ------------------------------------------------------------------------------------------- C10
+@prop("C10")
+def c10(chk, tier):
+    thorough = tier == "thorough"
+    chk.assumptions += [
+        "the 14 small-order encodings are literals in the specification (HpkeKem.tla); the oracle's self-test proves "
+        "by computation that each gives an all-zero X25519 output and that the negative examples do not",
+        "pattern mode: for keys that are not of small order only 'setup succeeds' is compared, nothing about bytes"]
+    over = setup_over(KemSet="{32}", KdfSet="{1, 2, 3}" if thorough else kset([rot([1, 2, 3], 0)]),
+                      AeadSet="{1, 2, 3, 65535}" if thorough else kset([rot([1, 2, 3, 65535], 0)]),
+                      Vals='"leaf"', Shape='"one"', BadPkR='"all"',
+                      Perturb='{"none", "encsmall", "pkssmall", "encother"}', FormMenu='{"alloc", "detached"}')
+    shots = dict(over, ShotsOnly="TRUE", ShotDl='"msg"', MaxShots="1")
+    model_check(chk, "MC_Setup", "MC_Setup.cfg", "mc_smallorder", over, invariants=["Binding"], properties=[])
+    model_check(chk, "MC_Setup", "MC_Setup.cfg", "mc_smallorder_shot", shots, invariants=[], properties=[])
+    ses = Session(chk)
+    try:
+        setup_transitions(chk, ses, "gen_smallorder", dict(over, Emit="TRUE"),
+                          want=lambda last, tr: last["op"] in ("setup_s", "setup_r"), casekey=tr_key("c10"))
+        setup_transitions(chk, ses, "gen_smallorder_shot", dict(shots, Emit="TRUE"),
+                          want=lambda last, tr: last["op"] in ("single_shot_seal", "single_shot_open"),
+                          casekey=tr_key("c10s"))
+        c10_kem_level(chk, ses, thorough)
+    finally:
+        ses.close()
+    chk.cov["exhaustive"] = True
+    chk.cov["rule"] = ("the 14 small-order X25519 encodings (and 5 other raw 32-byte strings incl. non-canonical ones as "
+                       "negatives) as recipient key on the sender side, as encapsulated key and as sender identity key on the "
+                       "receiver side, x 4 modes x {setup, single-shot}, plus Kem::encap / Kem::decap; distinct = distinct "
+                       "(suite, mode, call, arguments, outcome)")
+
+
+def c10_kem_level(chk, ses, thorough):
+    pass
+
+
+# ------------------------------------------------------------------------------------------- C14
+@prop("C14")
+def c14(chk, tier):
+    thorough = tier == "thorough"
+    chk.assumptions += [
+        "the specification DEFINES the single-shot and allocating forms as compositions of the step operators; the "
+        "check is conformance of both forms to that one definition: in pattern mode equal predicted terms must be "
+        "equal bytes, so single-shot output == setup + seal output with the same RNG script, and allocating seal == "
+        "in-place ciphertext || detached tag (twin sender with identical parameters and randomness)",
+        "no byte is compared with the oracle: a key-schedule deviation affects both forms alike and is C02's subject"]
+    ses = Session(chk)
+    try:
+        for i, kem in enumerate(KEMS):
+            x = kem == 32
+            aeads = "{1, 2, 3, 65535}" if thorough else kset([rot([1, 2, 3], i), 65535] if x else [rot([1, 2, 3], i)])
+            kdfs = "{1, 2, 3}" if thorough else kset([rot([1, 2, 3], i)])
+            # allocating vs in-place detached: twin senders seal the same messages in the two forms
+            forms = setup_over(KemSet="{%d}" % kem, KdfSet=kdfs, AeadSet=aeads, Vals='"leaf"', Shape='"one"', Twin=True,
+                               Perturb='{"none", "skr"}', MaxSeals=2, MaxOpens=2, FormMenu='{"alloc", "detached"}')
+            # single-shot vs setup + one call: same parameters, same RNG script, same message
+            shots = setup_over(KemSet="{%d}" % kem, KdfSet=kdfs, AeadSet=aeads, Vals='"leaf"', Shape='"one"', BadPkR='"one"' if x else '"none"',
+                               Perturb='{"none", "skr", "encsmall1"}' if x else '{"none", "skr"}',
+                               MaxSeals=1, MaxOpens=1, MaxShots=2, FormMenu='{"alloc", "detached"}')
+            if i == 0:
+                model_check(chk, "MC_Setup", "MC_Setup.cfg", "mc_forms", forms, invariants=["Binding", "CtLen"], properties=[])
+                model_check(chk, "MC_Setup", "MC_Setup.cfg", "mc_shots", shots, invariants=["Binding", "CtLen"], properties=[])
+            setup_transitions(chk, ses, "gen_forms_%d" % kem, dict(forms, Emit="TRUE"),
+                              want=lambda last, tr: last["op"] in ("seal", "open"), casekey=tr_key("c14f"))
+            setup_transitions(chk, ses, "gen_shots_%d" % kem, dict(shots, Emit="TRUE"),
+                              want=lambda last, tr: last["op"] in ("single_shot_seal", "single_shot_open"),
+                              casekey=tr_key("c14s"))
+    finally:
+        ses.close()
+    chk.cov["rule"] = ("single-shot seal/open (both forms) next to setup + seal/open with the identical RNG script and split, "
+                       "twin senders sealing the same message in the allocating and the detached form; success and failure "
+                       "paths (small-order recipient / encapsulated key, wrong recipient key, wrong info, flipped ciphertext, "
+                       "tag, aad, truncated below a tag); distinct = distinct (suite, mode, call, form, arguments, outcome)")
+
+
+# ------------------------------------------------------------------------------------------- C11
+@prop("C11")
+def c11(chk, tier):
+    thorough = tier == "thorough"
+    chk.assumptions += [
+        "value part (exact): contexts are built by the raw-context hook from a driver-chosen exporter secret, so only "
+        "Context.Export / LabeledExpand / suite_id are involved; bytes are compared with the oracle's HKDF-Expand",
+        "purity / symmetry / history independence (pattern mode) on real setups of both roles: the same (context, L) "
+        "exported after any history of seals, opens and refusals, and on the peer, must give identical bytes"]
+    model_check(chk, "MC_Seq", "MC_Seq.cfg", "mc_export",
+                seq_over(AeadC=1, KdfC=1, Starts='"edge"', Menu='"small"', ExpMenu='"lens"', MaxSeals=2, MaxOpens=2, MaxExports=2),
+                invariants=["AcceptsOnlySealed"], properties=["Latch"])
+    ses = Session(chk)
+    try:
+        # value + bound, raw contexts, all KDFs, both roles, interleaved with seals/opens/refusals
+        for kdf in (1, 2, 3):
+            for aead in ((1, 2, 3, 65535) if thorough else (rot([1, 2, 3], kdf), 65535)):
+                batch = TransitionBatch(ses, exact_tags={"expand"}, label="export kdf=%d aead=%d" % (kdf, aead))
+
+                def on(tr, batch=batch, kdf=kdf, aead=aead):
+                    l = tr["last"]
+                    if l["op"] != "export" and aead != 65535:
+                        return
+                    batch.add(tr)
+                    chk.case(("x", kdf, aead, l["op"], l["c"], l["kind"], l["err"], json.dumps(l["plain"], sort_keys=True),
+                              json.dumps(l["bytes"], sort_keys=True)[:80], tuple(l["pre"]["seq"]), l["pre"]["ovf"]))
+                generate(chk, "MC_Seq", "MC_Seq.cfg", "gen_export_%d_%d" % (kdf, aead),
+                         seq_over(AeadC=aead, KdfC=kdf, Starts='"edge"', Menu='"small"', ExpMenu='"lens"', Emit=True,
+                                  MaxSeals=1, MaxOpens=1, MaxExports=1),
+                         invariants=[], on_value=on, workers=4)
+                batch.run()
+        if thorough:
+            # every L in 0..=65535 once per KDF (and beyond the 2^16 limit)
+            for kdf in (1, 2, 3):
+                for lo in range(0, 65600, 4100):
+                    batch = TransitionBatch(ses, exact_tags={"expand"}, label="export sweep kdf=%d" % kdf)
+
+                    def on(tr, batch=batch, kdf=kdf):
+                        l = tr["last"]
+                        if l["op"] == "export" and l["c"] == "s":
+                            batch.add(tr)
+                            chk.case(("sweep", kdf, l["plain"]["len"], l["kind"]))
+                    generate(chk, "MC_Seq", "MC_Seq.cfg", "gen_sweep_%d_%d" % (kdf, lo),
+                             seq_over(AeadC=3, KdfC=kdf, Starts='"zero"', ExpMenu='"sweep"', SweepFrom=lo, SweepTo=lo + 4099,
+                                      Emit=True, MaxSeals=0, MaxExports=1),
+                             invariants=[], on_value=on, workers=4)
+                    batch.run()
+        # real setups: both roles, every history, all suites incl. export-only
+        for i, kem in enumerate(KEMS):
+            setup_transitions(chk, ses, "gen_export_setup_%d" % kem,
+                              setup_over(KemSet="{%d}" % kem, KdfSet="{1, 2, 3}" if thorough else kset([rot([1, 2, 3], i)]),
+                                         AeadSet="{1, 2, 3, 65535}" if thorough else kset([rot([1, 2, 3], i), 65535]),
+                                         Vals='"leaf"', Shape='"one"', Perturb='{"none"}', Emit=True,
+                                         MaxSeals=2, MaxOpens=2, MaxExports=2),
+                              want=lambda last, tr: last["op"] == "export" or (last["op"] in ("seal", "open") and last["kind"] == "panic"),
+                              casekey=tr_key("c11"))
+    finally:
+        ses.close()
+    chk.cov["rule"] = ("exports for exporter-context classes x lengths {0,1,16,Nh-1,Nh,Nh+1,255Nh-1,255Nh,255Nh+1,65535,65536,70000} "
+                       "x 3 KDFs x both roles x every interleaving with <=1-2 seals/opens/refusals incl. the latched state "
+                       "(raw contexts, exact), and on real setups of both roles for all modes (pattern); export-only suites: "
+                       "seal/open panic; distinct = distinct (kdf, aead, call, context, arguments, counter state, outcome)")
